@@ -9,7 +9,7 @@ use crate::puzzles;
 use crate::refsyn;
 use crate::report::{Ctx, Spec, Stats};
 use crate::solve3::{self, Problem};
-use crate::util::{self, Rng};
+use crate::util::{self, mix, Rng};
 use serde_json::{json, Value};
 use std::collections::BTreeSet;
 use std::time::Duration;
@@ -75,6 +75,51 @@ fn generate_to_dev_stdout(ctx: &Ctx, n: usize) -> Result<String, String> {
         Err(format!("n_queens_gen -n {} /dev/stdout failed: {} {}", n, out.status_string(), out.stderr_str().lines().take(4).collect::<Vec<_>>().join(" | ")))
     } else {
         Ok(out.stdout_str())
+    }
+}
+
+/// OUTPUT is the file an EARLIER run of the generator wrote for another board size (sizes whose
+/// decimals are prefixes of one another included): after the last run the file holds the formula
+/// of the last size — the same formula as that size gives on stdout.
+fn rerun_job(ctx: &Ctx, st: &mut Stats) {
+    let sequences: [&[usize]; 12] = [&[12, 1], &[10, 1], &[1, 12], &[40, 4], &[4, 40], &[25, 2], &[5, 5], &[100, 10], &[8, 4], &[31, 3], &[6, 64, 6], &[11, 1, 11]];
+    for (si, seq) in sequences.iter().enumerate() {
+        let dir = ctx.fresh_dir(&format!("c15-rerun-{}", si));
+        let _ = std::fs::create_dir_all(&dir);
+        let file = dir.join(super::common::hostile_file_name(si, "board.txt"));
+        let case = || json!({"kind": "rerun", "sequence": seq});
+        st.evals += 1;
+        let mut failed = false;
+        for n in seq.iter() {
+            let args = vec!["-n".to_string(), n.to_string(), file.display().to_string()];
+            let out = cli::run(&ctx.bin("n_queens_gen"), &args, None, Some(&dir), None, Duration::from_secs(120));
+            if out.timed_out {
+                st.bump("watchdog(inconclusive case)");
+                failed = true;
+                break;
+            }
+            if !out.ok() {
+                st.violate("c15.run", "C15:rerun:generator-failed".into(), format!("n_queens_gen -n {} OUTPUT (OUTPUT left by earlier runs of the sequence {:?}) failed: {} {}", n, seq, out.status_string(), out.stderr_str().lines().take(3).collect::<Vec<_>>().join(" | ")), case());
+                failed = true;
+                break;
+            }
+        }
+        if !failed {
+            let last = *seq.last().unwrap();
+            let held = std::fs::read_to_string(&file).unwrap_or_default();
+            match generate(ctx, last, false, &format!("rerun-ref-{}", si)) {
+                Ok(want) => {
+                    if held == want || matches!((refsyn::parse_text(&held), refsyn::parse_text(&want)), (Ok(x), Ok(y)) if x == y) {
+                        st.bump("outputs_onto_a_file_left_by_an_earlier_run");
+                        st.nt.insert(mix(0x15_4e, si as u64));
+                    } else {
+                        st.violate("c15.run", "C15:rerun:file-holds-another-formula".into(), format!("runs for the sizes {:?} onto ONE output file: afterwards the file holds {} bytes (first line {:?}), which is not the formula of n = {} ({} bytes on stdout)", seq, held.len(), held.lines().next().unwrap_or(""), last, want.len()), case());
+                    }
+                }
+                Err(_) => st.bump("watchdog(inconclusive case)"),
+            }
+        }
+        let _ = std::fs::remove_dir_all(&dir);
     }
 }
 
@@ -499,6 +544,7 @@ pub fn run(ctx: &Ctx) -> (Stats, Spec) {
         s
     });
     st.merge(crate::report::merge_all(parts));
+    rerun_job(ctx, &mut st);
     // a full output device: no formula can be stored, so the generator must not report success
     if std::path::Path::new("/dev/full").exists() {
         for n in ["1", "4", "6", "30"] {
@@ -515,7 +561,7 @@ pub fn run(ctx: &Ctx) -> (Stats, Spec) {
     }
     st.exhaustive.push(format!("exact model-set equality for every board size n = 1..{}", exact_max));
     let spec = Spec {
-        rule: "every board size n = 1..10 [quick] / 1..12 [thorough]: the real generator's output (stdout, and a file that already exists with longer content) is parsed by the reference grammar, its variable set must be v_0..v_(n^2-1), and ALL its models (three-valued propagation search) are compared as a set with an independent backtracking enumeration; rsbdd -t -ft cross-check for n <= 6 / 7; larger n incl. 255, 256, 257 (16-bit boundary), 316, 317 (six-digit indices), thorough also 999-1001 (seven digits): variable set, attacking and non-attacking square pairs (all pairs when feasible, else sampled with a bias to shared lines), empty rows/columns, a constructed placement and near-misses; HUGE sizes up to 65535 (the largest value the option accepts; also 32768, 46341 where the square count passes 2^30 / 2^31): the first 6 MiB [quick] / 48 MiB [thorough] of the streamed output are read and every complete clause must be implied by the rules on its own (distinct squares of one line for <= 1, a complete row / column for = 1, indices below n^2). distinct = board size (exact) / board size (probed); every board size is a configuration.".into(),
+        rule: "every board size n = 1..10 [quick] / 1..12 [thorough]: the real generator's output (stdout, a file that already exists with longer content, and — twelve sequences of sizes, e.g. 12 then 1, 40 then 4, 6 then 64 then 6 — the file an earlier run wrote for another size) is parsed by the reference grammar, its variable set must be v_0..v_(n^2-1), and ALL its models (three-valued propagation search) are compared as a set with an independent backtracking enumeration; rsbdd -t -ft cross-check for n <= 6 / 7; larger n incl. 255, 256, 257 (16-bit boundary), 316, 317 (six-digit indices), thorough also 999-1001 (seven digits): variable set, attacking and non-attacking square pairs (all pairs when feasible, else sampled with a bias to shared lines), empty rows/columns, a constructed placement and near-misses; HUGE sizes up to 65535 (the largest value the option accepts; also 32768, 46341 where the square count passes 2^30 / 2^31): the first 6 MiB [quick] / 48 MiB [thorough] of the streamed output are read and every complete clause must be implied by the rules on its own (distinct squares of one line for <= 1, a complete row / column for = 1, indices below n^2). distinct = board size (exact) / board size (probed); every board size is a configuration.".into(),
         assumptions: vec![
             "v_k is read as 'a queen on row k div n, column k mod n'".into(),
             "for n beyond the enumerable bound the model set is only probed, not compared".into(),
@@ -526,6 +572,7 @@ pub fn run(ctx: &Ctx) -> (Stats, Spec) {
             ("attacking_pairs_probed".into(), 10_000, "too few attacking pairs probed".into()),
             ("constructed_placements_probed".into(), 5, "no placements probed".into()),
             ("prefix_clauses_judged".into(), 10, "huge board sizes not exercised".into()),
+            ("outputs_onto_a_file_left_by_an_earlier_run".into(), 8, "output files left by earlier runs not exercised".into()),
         ],
     };
     (st, spec)
